@@ -6,6 +6,8 @@ package main
 
 import (
 	"fmt"
+	"os"
+	"os/exec"
 	"path/filepath"
 	"sort"
 	"strings"
@@ -340,6 +342,11 @@ func runCase(cs Case, suite map[string]*compliance.TestSpec) (CaseResult, []stri
 	if kind != "reference" {
 		wd = 4 * time.Second // a test that the fault leaves waiting for ever counts as failed
 	}
+	if cs.Kind == "patient" {
+		// the test is given the time the suite's own bound allows (each wait of a compliance test is limited to a
+		// minute): against a server that withholds a response it must END by itself, with a failure
+		wd = 150 * time.Second
+	}
 	var e *env
 	var err error
 	var prevMax uint64
@@ -416,6 +423,9 @@ func runCase(cs Case, suite map[string]*compliance.TestSpec) (CaseResult, []stri
 		r, leaked := runTest(name, ts, e, wd)
 		if leaked {
 			problems = append(problems, fmt.Sprintf("HANG: test %q did not end after its servers were stopped", name))
+		}
+		if r.Timeout && cs.Kind == "patient" {
+			problems = append(problems, fmt.Sprintf("compliance test %q did not end by itself within %v against server %q, which withholds a response: a test that waits without bound reports nothing [fault-not-flagged]", name, wd, kind))
 		}
 		if r.Timeout {
 			// the servers are gone
@@ -581,6 +591,11 @@ func generate(seed int64, n int, tier string, names []string) []Case {
 		}
 		cases = append(cases, Case{Kind: "cells", Server: k, Config: cfg, Order: order, Seed: seed})
 	}
+	if len(fibACK) > 0 {
+		// one of the tests that wait for the FIB acknowledgement, against the server that never sends it, with the
+		// patience the suite's own one-minute bounds require (run in a process of its own, beside everything else)
+		cases = append(cases, Case{Kind: "patient", Server: "omit_fib", Config: configs[1], Order: []string{fibACK[int(seed)%len(fibACK)]}, Seed: seed})
+	}
 	return cases
 }
 
@@ -609,8 +624,51 @@ func run(args []string) error {
 	var results []CaseResult
 	var coq []string
 	distinct := map[string]bool{}
+	// "patient" cases take minutes of waiting: when this is a generated run each of them is handed to a child process
+	// (the compliance package keeps its election-id counter and instance names in package variables) that runs
+	// beside the other cases; a replay runs them in place
+	type child struct {
+		cmd *exec.Cmd
+		dir string
+	}
+	children := map[int]*child{}
+	if *fl.Replay == "" {
+		for i, cs := range cases {
+			if cs.Kind != "patient" {
+				continue
+			}
+			dir := filepath.Join(*fl.Out, fmt.Sprintf("patient%d", i))
+			os.MkdirAll(dir, 0o755)
+			if err := drv.WriteJSON(filepath.Join(dir, "in.json"), []Case{cs}); err != nil {
+				return err
+			}
+			cmd := exec.Command(os.Args[0], "c19", "-replay", filepath.Join(dir, "in.json"), "-out", dir)
+			if err := cmd.Start(); err != nil {
+				return err
+			}
+			children[i] = &child{cmd: cmd, dir: dir}
+		}
+	}
 	for i, cs := range cases {
-		cr, problems := runCase(cs, suite)
+		var cr CaseResult
+		var problems []string
+		if ch := children[i]; ch != nil {
+			werr := ch.cmd.Wait()
+			var rs []CaseResult
+			var crep drv.Report
+			if err := drv.ReadJSON(filepath.Join(ch.dir, "results.json"), &rs); err != nil || len(rs) != 1 || werr != nil {
+				return fmt.Errorf("patient case %d: child process: %v %v", i, werr, err)
+			}
+			drv.ReadJSON(filepath.Join(ch.dir, "impl.json"), &crep)
+			cr = rs[0]
+			for _, v := range append(crep.Violations, crep.Hangs...) {
+				if !strings.Contains(v.Problem, "is written for the requirement") { // the oracle below reports those
+					problems = append(problems, v.Problem)
+				}
+			}
+		} else {
+			cr, problems = runCase(cs, suite)
+		}
 		results = append(results, cr)
 		for _, p := range problems {
 			if strings.HasPrefix(p, "HANG") {
